@@ -686,7 +686,7 @@ RunResult run_plan(const Plan &plan, const RunOptions &opt, Counters &cnt) {
     }
     if (any_fired && steps_differ) fault_divergent = true;
   }
-  if (fault_divergent) local.runs_fault_divergent++;
+  if (fault_divergent && !static_fault) local.runs_fault_divergent++;  // (static-initialiser faults are skipped anyway)
   if (have_canon && rr.viol.empty() && !ex.stats.deadlock && !canon.stats.deadlock && !static_fault && !fault_divergent) {
     for (int t = 0; t < n; t++) {
       const TaskLog &a = canon.logs[t], &b = ex.logs[t];
